@@ -396,6 +396,20 @@ func workerMain(p *erased, t Tier, seed uint64, b Budget, wi, nw int) int {
 
 		sum.Fingerprint ^= Hash64(fmt.Sprint(idx, "|", out.Shape, "|", out.Violation != nil, "|", out.Inconclusive))
 
+		// determinism self-test aid: one line per run, to find the run whose shape
+		// depends on which other runs shared its process
+		if p := os.Getenv("VERIF_SHAPES"); p != "" {
+			if f, err := os.OpenFile(p, os.O_APPEND|os.O_CREATE|os.O_WRONLY, 0o644); err == nil {
+				shape := out.Shape
+				if len(shape) > 120 {
+					shape = shape[:120]
+				}
+
+				fmt.Fprintf(f, "%d %x %v %s %q\n", idx, Hash64(out.Shape), out.Violation != nil, out.Inconclusive, shape)
+				f.Close()
+			}
+		}
+
 		if out.Shape != "" {
 			h := Hash64(out.Shape)
 			if len(allShapes) < 1<<20 {
